@@ -49,6 +49,9 @@ TClear == IsEvent("Clear") /\ ClearItems(ev.p) /\ tbl'[ev.p].items = ev.items
 
 TRoot == IsEvent("Root") /\ SetRoot(ev.p)
 
+\* SimplePipeline::flush() on pipeline ev.p: the sinks whose flush() ran, in order
+TFlush == IsEvent("Flush") /\ ev.sinks = FlushWalk(ev.p) /\ UNCHANGED vars
+
 TStart == IsEvent("Start") /\ Start([type |-> ev.type, text |-> ev.text, cat |-> ev.cat])
 
 \* an observable handler was called: after the unobservable steps the machine must be exactly at that
@@ -80,7 +83,7 @@ TFinish ==
            /\ FinishFrom(S)
 
 TNext == TReset \/ TNew \/ TAppend \/ TAppendList \/ TFluent \/ TChild \/ TEnd \/ TRemove \/ TClear
-         \/ TRoot \/ TStart \/ TH \/ TFinish
+         \/ TRoot \/ TFlush \/ TStart \/ TH \/ TFinish
 
 TraceSpec == TInit /\ [][TNext]_tvars
 
